@@ -8,6 +8,8 @@ by the guards walk the raw links (closure); list facades only permute (facades);
 from __future__ import annotations
 
 import ast
+import copy
+import re
 
 from sa import facts
 from sa.cfg import cfg_of
@@ -89,6 +91,12 @@ def check(ctx):
                "_ChildrenList.move/sort/reorder only permute the child list: every removed element is re-inserted, sort uses sorted() of "
                "the same list, reorder removes each picked element from the remainder (or rejects duplicates), and the new list is published", floor=4)
     ctx.guarded(o, lambda o: facades(ctx, o))
+
+    o = ctx.ob('move_cannot_lose_a_task', 'R2',
+               "_ChildrenList.move: between remove(task) and insert(index(anchor), task) nothing can fail - the anchor is given, is in the "
+               "list and is not one of the moved tasks, all rejected with RuntimeError before the first list change (otherwise the removed "
+               "task is lost from the child list while it still names the parent)", floor=5)
+    ctx.guarded(o, lambda o: move_anchor(ctx, o, eff))
 
     o = ctx.ob('shared_child_list', 'R1',
                "one child list object per task, shared with every children facade: facades change it in place and publish that very object, "
@@ -175,56 +183,371 @@ def _role_text(f, u, g):
     return r.render(u, g.extra)
 
 
+# ----------------------------------------------------------------------------------------------------------------------
+# list-valued expressions as collections of parts
+
+_LIST_MUT = {'append', 'extend', 'insert', 'remove', 'pop', 'clear', 'sort', 'reverse', '__setitem__', '__delitem__'}
+
+
+class _Parts:
+    """resolves a list-valued expression into parts ('one', e): the single element e / ('all', e): every element of e.
+    Understands `+`, list displays (with *x), identity comprehensions, list()/tuple()/set()/.copy()/[:] copies, itertools.chain and
+    locals that are built by a literal followed by straight-line .append/.extend/+= (read after the last of them)."""
+
+    def __init__(self, ctx, f):
+        self.ctx, self.f = ctx, f
+        self.cfg = cfg_of(f)
+        self.fl = flow_of(f)
+        self.ex = Expander(ctx.prog, f, ctx.typer, inline=True)
+
+    def parts(self, e, at, depth=0):
+        """list of (kind, expr) or None when the value is not understood"""
+        if depth > 10 or e is None or at is None:
+            return None
+        if isinstance(e, ast.BinOp) and isinstance(e.op, (ast.Add, ast.BitOr)):
+            l, r = self.parts(e.left, at, depth + 1), self.parts(e.right, at, depth + 1)
+            return None if l is None or r is None else l + r
+        if isinstance(e, (ast.List, ast.Tuple, ast.Set)):
+            out = []
+            for x in e.elts:
+                if isinstance(x, ast.Starred):
+                    p = self.parts(x.value, at, depth + 1)
+                    if p is None:
+                        return None
+                    out += p
+                else:
+                    out.append(('one', self.ex.expand(x, at)))
+            return out
+        if isinstance(e, (ast.ListComp, ast.GeneratorExp, ast.SetComp)) and len(e.generators) == 1:
+            g = e.generators[0]
+            if isinstance(e.elt, ast.Name) and isinstance(g.target, ast.Name) and e.elt.id == g.target.id and not g.ifs:
+                return self.parts(g.iter, at, depth + 1)
+            return None
+        m = match("list($x)", e) or match("tuple($x)", e) or match("set($x)", e) or match("$x.copy()", e) or match("$x[:]", e) or \
+            match("frozenset($x)", e) or match("iter($x)", e)
+        if m:
+            return self.parts(m['x'], at, depth + 1)
+        if isinstance(e, ast.Call) and ((isinstance(e.func, ast.Name) and e.func.id == 'chain') or
+                                        (isinstance(e.func, ast.Attribute) and e.func.attr == 'chain')) and not e.keywords:
+            out = []
+            for x in e.args:
+                p = self.parts(x, at, depth + 1)
+                if p is None:
+                    return None
+                out += p
+            return out
+        if isinstance(e, ast.Name):
+            return self._name(e, at, depth)
+        if isinstance(e, ast.Attribute) and attr_path_ok(e):
+            x = self.ex.expand(e, at)
+            if isinstance(x, ast.Attribute) and attr_path_ok(x):
+                return [('all', x)]
+            return self.parts(x, at, depth + 1) if not same(x, e) else [('all', x)]
+        if isinstance(e, ast.Call):
+            x = self.ex.expand(e, at)
+            if not same(x, e):
+                return self.parts(x, at, depth + 1)
+            return [('all', x)]
+        return None
+
+    def _name(self, e, at, depth):
+        name = e.id
+        ds = self.fl.reaching(name, at)
+        if len(ds) != 1:
+            return None
+        d = ds[0]
+        if d.kind in ('param', 'for'):
+            return [('all', e)]
+        if d.kind == 'aug' and isinstance(d.stmt.op, ast.Add) and d.node is not at:
+            prev = self._name(e, d.node, depth + 1)
+            inc = self.parts(d.stmt.value, d.node, depth + 1)
+            if prev is None or inc is None or self.cfg.enclosing_fors(d.node) != self.cfg.enclosing_fors(at):
+                return None
+            return prev + inc
+        if d.kind != 'assign' or d.value is None or d.node is None or d.node is at:
+            return None
+        out = self.parts(d.value, d.node, depth + 1)
+        if out is None:
+            return None
+        # in-place growth between the definition and the use
+        muts = []
+        for n in walk_no_nested(self.f.node):
+            if isinstance(n, ast.Call) and isinstance(n.func, ast.Attribute) and isinstance(n.func.value, ast.Name) and \
+                    n.func.value.id == name and n.func.attr in _LIST_MUT:
+                mn = self.cfg.node_containing(n)
+                if mn is None or mn is at:
+                    return None
+                if not self.cfg.can_reach(mn, at) or not self.cfg.can_reach(d.node, mn):
+                    continue            # after the use / before the (re)definition
+                muts.append((mn, n))
+        muts.sort(key=lambda x: getattr(x[1], 'lineno', 0))
+        for mn, n in muts:
+            same_ctx = [id(t) for t, p in self.cfg.conditions(mn)] == [id(t) for t, p in self.cfg.conditions(d.node)] and \
+                self.cfg.enclosing_fors(mn) == self.cfg.enclosing_fors(d.node)
+            if not same_ctx or not self.cfg.dominates(mn, at) or n.keywords:
+                return None
+            if n.func.attr == 'extend' and len(n.args) == 1:
+                p = self.parts(n.args[0], mn, depth + 1)
+                if p is None:
+                    return None
+                out = out + p
+            elif n.func.attr == 'append' and len(n.args) == 1:
+                out = out + [('one', self.ex.expand(n.args[0], mn))]
+            elif n.func.attr == 'insert' and len(n.args) == 2:
+                out = out + [('one', self.ex.expand(n.args[1], mn))]
+            else:
+                return None
+        return out
+
+
+def attr_path_ok(e) -> bool:
+    while isinstance(e, ast.Attribute):
+        e = e.value
+    return isinstance(e, ast.Name)
+
+
+def _rename(e, names):
+    e2 = copy.deepcopy(e)
+
+    class R(ast.NodeTransformer):
+        def visit_Name(self, n):
+            return ast.Name(id=names[n.id], ctx=ast.Load()) if n.id in names else n
+    return R().visit(e2)
+
+
+def _canon_part(kind, e, names):
+    t = src(_rename(e, names))
+    t = re.sub(r"\._Task__get_all_(\w+)\(\)", r".all_\1", t)
+    t = re.sub(r"\._Task__(predecessors|successors)\b", r".\1", t)
+    simple = re.fullmatch(r"[A-Za-z_<>]\w*>?(\.\w+)*", t) is not None
+    return (kind, t), simple
+
+
+class _Chain:
+    """one way the predicate answers True: exists binders such that all tests hold"""
+
+    def __init__(self, node):
+        self.node = node
+        self.binders = []       # (target ast, iterable ast, cfg node at which the iterable is read)
+        self.tests = []         # (test ast, polarity, cfg node)
+
+
+def _exists_chains(ctx, f):
+    """([_Chain], [false returns]) of a boolean helper: every `return <true>` under its loops and conditions, `return <expr>` with
+    any()/exists-forms unfolded into binders"""
+    cfg = cfg_of(f)
+    chains, falses = [], []
+
+    def unfold(ch, t, pol, at):
+        for a, q in facts.split_conj(t, pol):
+            gen = None
+            if q:
+                m = match("any($c)", a)
+                if m and isinstance(m['c'], (ast.GeneratorExp, ast.ListComp)):
+                    gen = (m['c'], True)
+                else:
+                    m = match("len($c) > 0", a) or match("len($c) != 0", a) or match("len($c) >= 1", a) or match("bool($c)", a)
+                    if m and isinstance(m['c'], (ast.ListComp, ast.SetComp, ast.GeneratorExp)):
+                        gen = (m['c'], False)
+                    elif isinstance(a, ast.ListComp):
+                        gen = (a, False)
+            if gen is None:
+                ch.tests.append((a, q, at))
+                continue
+            comp, with_elt = gen
+            for g in comp.generators:
+                ch.binders.append((g.target, g.iter, at))
+                for c in g.ifs:
+                    unfold(ch, c, True, at)
+            if with_elt:
+                unfold(ch, comp.elt, True, at)
+
+    def answer(r, rn, v, extra):
+        if isinstance(v, ast.Constant):
+            if v.value:
+                start(r, rn, extra)
+            else:
+                falses.append((r, extra))
+            return
+        if isinstance(v, ast.IfExp):
+            answer(r, rn, v.body, extra + [(v.test, True)])
+            answer(r, rn, v.orelse, extra + [(v.test, False)])
+            return
+        if isinstance(v, ast.BoolOp) and isinstance(v.op, ast.Or):
+            for x in v.values:
+                answer(r, rn, x, extra)
+            return
+        start(r, rn, extra + [(v, True)])
+
+    def start(r, rn, extra):
+        ch = _Chain(r)
+        for fo in cfg.enclosing_fors(rn):
+            ch.binders.append((fo.target, fo.iter, cfg.node_of(fo)))
+        for t, p in cfg.conditions(rn):
+            # residues of earlier exits (`if c: return ..` that did not fire) do not belong to this answer: what they answer is
+            # judged on its own (another chain / an early False)
+            holder = next((n for n in walk_no_nested(f.node) if isinstance(n, (ast.If, ast.While)) and n.test is t), None)
+            if holder is not None and not any(x is r for x in ast.walk(holder)):
+                continue
+            unfold(ch, t, p, cfg.node_containing(t))
+        for t, p in extra:
+            unfold(ch, t, p, rn)
+        chains.append(ch)
+
+    for r in [n for n in walk_no_nested(f.node) if isinstance(n, ast.Return)]:
+        rn = cfg.node_of(r)
+        if rn is None or not cfg.is_reachable(rn):
+            continue
+        answer(r, rn, r.value if r.value is not None else ast.Constant(value=None), [])
+    return chains, falses
+
+
 def dep_helper(ctx, o):
     prog = ctx.prog
     f = prog.func('task._has_dependency_with_parents')
     a, b = f.params[0], f.params[1]
-    ex = Expander(prog, f, ctx.typer, inline=False)
-    body = f.node
-    loops = [n for n in walk_no_nested(body) if isinstance(n, ast.For)]
-    rets_true = [n for n in walk_no_nested(body) if isinstance(n, ast.Return) and isinstance(n.value, ast.Constant) and n.value.value is True]
-    if len(loops) < 2 or not rets_true:
-        o.undecided(f, f.node, f.name, "helper is not two nested loops returning True on a hit")
+    cfg = cfg_of(f)
+    P = _Parts(ctx, f)
+    chains, falses = _exists_chains(ctx, f)
+    if not chains:
+        o.undecided(f, f.node, f.name, "the helper never answers True in a form the rule recognises")
         return
-    cfg0 = cfg_of(f)
-    for r in [n for n in walk_no_nested(body) if isinstance(n, ast.Return)]:
-        if isinstance(r.value, ast.Constant) and r.value.value is True:
+    want_T = {('one', 'TASK'), ('all', 'TASK.all_children')}
+    want_L = {('all', 'T.predecessors'), ('all', 'T.successors')}
+    want_F = {('one', 'PARENT'), ('all', 'PARENT.all_parents')}
+    required = {(x, y, z) for x in want_T for y in want_L for z in want_F}
+    covered, problems, loop_hdrs, extras = set(), [], [], set()
+    for ch in chains:
+        r = _chain_triples(ctx, f, P, ch, a, b)
+        if isinstance(r, str):
+            problems.append((ch, r))
             continue
-        if not cfg0.dominates(cfg0.node_of(loops[0]), cfg0.node_of(r)):
-            conds = facts.cond_texts(facts.node_conditions(prog, f, r, ctx.typer, expand=False))
-            o.refute(f, r, r, f"the helper answers `{src(r.value) if r.value is not None else 'None'}` before it scanned the subtree (under "
-                              f"{conds}): links of descendants are not checked on that path")
-            return
-    it0 = ex.expand(loops[0].iter, cfg_of(f).node_of(loops[0]))
-    it1 = ex.expand(loops[1].iter, cfg_of(f).node_of(loops[1]))
-    t0 = src(it0)
-    ok_sub = (a in t0) and ('all_children' in t0) and match(f"[{a}] + $x", it0) is not None
-    if not ok_sub:
-        o.refute(f, loops[0], loops[0].iter, f"the helper scans `{t0}`; expected the task and all its descendants ([{a}] + {a}.all_children): a "
-                                             f"linked grandchild would be missed")
+        triples, hdr = r
+        covered |= triples & required
+        extras |= triples - required
+        loop_hdrs.append(hdr)
+    missing = required - covered
+    if problems and missing:
+        ch, why = problems[0]
+        o.undecided(f, ch.node, f.name, f"a True answer of the helper is not understood: {why}")
         return
-    v0 = loops[0].target.id
-    t1 = src(it1)
-    if not (f"{v0}.predecessors" in t1 and f"{v0}.successors" in t1):
-        o.refute(f, loops[1], loops[1].iter, f"the helper looks at `{t1}`; expected predecessors and successors of every scanned task")
+    if missing:
+        def says(s, kind, txt):
+            return (kind, txt) in s
+        cT, cL, cF = {t[0] for t in covered | extras}, {t[1] for t in covered | extras}, {t[2] for t in covered | extras}
+        scanned = ', '.join(sorted(x[1] for x in cT)) or '?'
+        if ('all', 'TASK.all_children') not in cT:
+            o.refute(f, f.node, 'scanned subtree', f"the helper scans `{scanned}` (TASK = {a}); expected the task and all its descendants "
+                     f"([{a}] + {a}.all_children): a linked grandchild would be missed")
+        elif ('one', 'TASK') not in cT:
+            o.refute(f, f.node, 'scanned subtree', f"the helper scans `{scanned}` (TASK = {a}) but not the moved task itself")
+        elif not want_L <= cL:
+            o.refute(f, f.node, 'scanned links', f"the helper looks at `{', '.join(sorted(x[1] for x in cL))}`; expected predecessors and "
+                     f"successors of every scanned task")
+        elif not want_F <= cF:
+            o.refute(f, f.node, 'compared with', f"links are compared with `{', '.join(sorted(x[1] for x in cF))}` (PARENT = {b}); expected "
+                     f"the new parent and all its ancestors")
+        else:
+            ms = sorted(missing)[0]
+            o.refute(f, f.node, 'combination', f"the combination {ms[0][1]} x {ms[1][1]} x {ms[2][1]} is never tested")
         return
-    # membership in [new_parent] + all_parents
-    conds = facts.node_conditions(prog, f, rets_true[0], ctx.typer)
-    v1 = loops[1].target.id
-    hit = False
-    for t, p in conds:
-        m = match(f"{v1} in $s", t)
-        if m and p:
-            s = src(ex.expand(m['s'], cfg_of(f).node_containing(rets_true[0])))
-            if b in s and 'all_parents' in s and s.startswith(f"[{b}] +"):
-                hit = True
-            else:
-                o.refute(f, rets_true[0], m['s'], f"links are compared with `{s}`; expected the new parent and all its ancestors")
+    # an answer `False` before the scan was finished
+    for r, extra in falses:
+        rn = cfg.node_of(r)
+        early = [h for h in loop_hdrs if h is not None and h.kind == 'for' and not cfg.dominates(h, rn)]
+        before_expr = [h for h in loop_hdrs if h is not None and h.kind != 'for' and h is not rn and cfg.can_reach(rn, h) is False
+                       and not cfg.dominates(h, rn)]
+        if early or before_expr:
+            conds = facts.node_conditions(prog, f, r, ctx.typer, expand=False) + [x for t, p in extra for x in facts.split_conj(t, p)]
+            if conds and all(facts.cond_is(t, p, f"{b} is None", True) is not None for t, p in conds):
+                continue
+            mentions = ' '.join(src(t) for t, p in conds)
+            if 'children' in mentions:
+                o.undecided(f, r, r, f"early answer under {facts.cond_texts(conds)} involves the children: not decided")
                 return
-    if hit:
-        o.site(f, f.node, "task + all_children x (predecessors + successors) against new_parent + all_parents")
+            o.refute(f, r, r, f"the helper answers `{src(r.value) if r.value is not None else 'None'}` before it scanned the subtree (under "
+                              f"{facts.cond_texts(conds)}): links of descendants are not checked on that path")
+            return
+    if extras:
+        o.undecided(f, f.node, f.name, f"the helper also rejects combinations outside the specification: {sorted(extras)[0]}")
+        return
+    o.site(f, f.node, "task + all_children x (predecessors + successors) against new_parent + all_parents")
+
+
+def _chain_triples(ctx, f, P, ch, a, b):
+    """set of (T part, L part, F part) triples the chain tests, and the cfg node of its outermost binder; or a text why not"""
+    cfg = cfg_of(f)
+    bvars = {}
+    for tgt, it, at in ch.binders:
+        if not isinstance(tgt, ast.Name):
+            return "binder with a structured target"
+        bvars[tgt.id] = (it, at)
+    pair, others = None, []
+    for t, pol, at in ch.tests:
+        t2, p2 = facts.norm_cond(t, pol)
+        m = match("$x in $s", t2)
+        if m and p2 and isinstance(m['x'], ast.Name) and m['x'].id in bvars and pair is None:
+            pair = (m['x'].id, None, m['s'], at)
+            continue
+        m = match("$x is $y", t2) or match("$x == $y", t2)
+        if m and p2 and isinstance(m['x'], ast.Name) and isinstance(m['y'], ast.Name) and m['x'].id in bvars and m['y'].id in bvars \
+                and pair is None:
+            pair = (m['x'].id, m['y'].id, None, at)
+            continue
+        m = match("not $x.isdisjoint($y)", t if pol else ast.UnaryOp(op=ast.Not(), operand=t))
+        if m and pair is None:
+            pair = (None, None, (m['x'], m['y']), at)
+            continue
+        others.append((t, pol))
+    if pair is None:
+        return "no membership test between links and ancestors"
+    if others:
+        return "additional conditions restrict the answer: " + ', '.join(facts.cond_texts(others))
+    used = set()
+    if pair[0] is None:
+        X, S = (pair[2][0], pair[3]), (pair[2][1], pair[3])
     else:
-        o.undecided(f, f.node, f.name, "membership test of the helper not recognised")
+        X = bvars[pair[0]]
+        used.add(pair[0])
+        if pair[1] is not None:
+            S = bvars[pair[1]]
+            used.add(pair[1])
+        else:
+            S = (pair[2], pair[3])
+    rest = [v for v in bvars if v not in used]
+    if len(rest) != 1:
+        return f"{len(rest)} outer binders (expected one loop over the scanned tasks)"
+    tv = rest[0]
+    T = bvars[tv]
+
+    def mentions(e, name):
+        return any(isinstance(n, ast.Name) and n.id == name for n in ast.walk(e))
+    # which side is the link list (depends on the scanned task), which the forbidden set
+    xs_t = mentions(X[0], tv) or _resolves_mention(P, X, tv)
+    ss_t = mentions(S[0], tv) or _resolves_mention(P, S, tv)
+    if xs_t == ss_t:
+        return "cannot tell the link side from the ancestor side"
+    L, F = (X, S) if xs_t else (S, X)
+    names = {a: 'TASK', b: 'PARENT', tv: 'T'}
+    sets = []
+    for what, (e, at) in (('scanned tasks', T), ('links', L), ('ancestors', F)):
+        ps = P.parts(e, at)
+        if ps is None:
+            return f"the {what} expression `{src(e)[:60]}` is not understood"
+        cs = set()
+        for kind, pe in ps:
+            c, simple = _canon_part(kind, pe, names)
+            if not simple:
+                return f"part `{c[1][:60]}` of the {what} is not an attribute path"
+            cs.add(c)
+        sets.append(cs)
+    triples = {(x, y, z) for x in sets[0] for y in sets[1] for z in sets[2]}
+    return triples, T[1]
+
+
+def _resolves_mention(P, side, name):
+    ps = P.parts(side[0], side[1])
+    return bool(ps) and any(any(isinstance(n, ast.Name) and n.id == name for n in ast.walk(pe)) for _, pe in ps)
 
 
 def closure(ctx, o):
@@ -682,6 +1005,21 @@ def facades(ctx, o):
             for w in eff.direct_writes(m):
                 if w.field == '_list':
                     o.refute(m, w.node, w.node, f"{cls}.{m.name} mutates the raw relation list it was handed")
+
+
+def move_anchor(ctx, o, eff):
+    from .c15 import move_requirements
+    prog = ctx.prog
+    f = prog.func('task._ChildrenList.move')
+    writes = [w for w in relation_write_nodes(ctx, f, eff) if isinstance(w[1], ast.AST)]
+    if not writes:
+        o.undecided(f, f.node, 'move', "no list change found")
+        return
+    for key, label, R, needs_elem in move_requirements(f):
+        if key == 'task_in_list':
+            continue        # a moved task that is not in the list fails in remove(), before anything of it was changed
+        T.require(ctx, o, f, f"move(): {label} (else index(anchor) fails after remove(task) and the task is lost from the child list)",
+                  R, writes, eff, needs_elem)
 
 
 def _published(ctx, o, f):
